@@ -869,7 +869,8 @@ class OddFTCorrelationFunction(DFunction, UnitsManaged):
             if ftype not in CorrelationFunction.allowed_types:
                 raise Exception("Unknown Correlation Function Type")
     
-            self.params.append(params)
+            # the record is of the object's own
+            self.params.append(dict(params))
                 
             # We create CorrelationFunction and FTT it
             if params["ftype"] == "Value-defined":
@@ -949,7 +950,8 @@ class EvenFTCorrelationFunction(DFunction, UnitsManaged):
                 raise Exception("Unknown Correlation Function Type: "+ftype)
 
 
-            self.params.append(params)
+            # the record is of the object's own
+            self.params.append(dict(params))
             
             # We create CorrelationFunction and FTT it
             if params["ftype"] == "Value-defined":
